@@ -5,6 +5,14 @@ ROOT = os.path.dirname(os.path.dirname(os.path.abspath(__file__)))
 
 CHECKS = {
  # id: (technique, level text, level note, design ref)
+ "C17": ("differential against a reference syntax-rules matcher/instantiator (R7RS 4.3.2, non-hygienic) over proptest-driven choice-sequence generators of valid transformers + uses and of structurally edited (mostly invalid) definitions; forked execution with address-space limit and alarm for termination",
+         "Generated transformers (1-3 rules, patterns nested to depth 3 with literals, _, default/custom ellipsis, ellipsis depth 0-2, fixed tails, dotted tails, vector patterns; templates reusing, dropping, duplicating and nesting variables) are defined in a Vm with every template quoted, a matching or edited use is evaluated, and the outcome is compared with the reference: an error is always accepted, a value must be the reference expansion of the first matching rule up to a consistent renaming of the reserved template symbols, and a use no rule matches must fail. Edited definitions are checked for termination and absence of panic (full oracle where still valid). Exploration: holds on the 88 k (quick) / 1.9 M (thorough) generated cases except for the listed known findings; the shapes on which expansion is known not to terminate are recognised and their uses not run in the search tier.",
+         "Trusts the harness' reference expander (unit-tested against R7RS examples in mwv-core). Unequal ellipsis lengths under one template ellipsis are excluded as the statement says. Input goes to Vm::eval as data, not through the reader.",
+         "DESIGN.md section 4, C17"),
+ "C01": ("differential against a reference interpreter over proptest-driven typed program generation (choice sequences), plus metamorphic re-runs in a second fresh VM and in a polluted VM",
+         "Sessions of 1-8 top-level forms from a typed, scope-aware generator covering every core and derived form of the statement in combination are evaluated by an independent reference interpreter (CEK machine written from R7RS, hygienic desugaring) and by three VM instances; values, failures and output order are compared form by form with a strict structural equality. Exploration: 24k sessions quick / 400k thorough, shrunk to a minimal program on failure.",
+         "Trusts the reference interpreter (unit-tested, shares no code with the SUT); only left-to-right operand order is assumed; failure messages are not compared; programs never rebind standard names; known deviations are matched by syntactic signature and generated at probe rate only.",
+         "DESIGN.md section 4, C01"),
  "C20": ("exhaustive enumeration over a lexeme alphabet + proptest-driven Unicode token soup against a reference bracket matcher",
          "Every string of <=5 (quick) / <=7 (thorough) lexemes over the 11-lexeme alphabet with every cursor position is checked against the harness' own tokenizer and partner search (finite space enumerated completely), plus random Unicode token soup with random cursors. Exploration: holds on everything enumerated/generated, nothing beyond.",
          "Trusts the harness' reference tokenizer/partner search; random texts use the SUT scanner for token spans (checked by C11).",
